@@ -3,6 +3,9 @@ C06 - property theorems about the model of c/blake3.c.
 -/
 import B3.Model.C
 import B3.Proofs.Arith
+import B3.Proofs.Xof
+import B3.Proofs.Final
+import B3.Proofs.GenK
 namespace B3.Props.C06
 open B3
 
@@ -38,5 +41,51 @@ crate's `largest_power_of_two_leq` -/
 theorem round_down_eq_rust (n : Nat) (h1 : 0 < n) (h2 : n < 2 ^ 63) :
     Gen.C.round_down_to_power_of_2 n = Gen.Rs.largest_power_of_two_leq n := by
   rw [Proofs.c_round_down_spec n (by omega), Proofs.rs_largest_power_of_two_leq_spec n h1 h2, if_neg (by omega)]
+
+/-- `blake3_hasher_update` preserves the representation invariant (it is the Rust crate's
+`update_with_join` without an input offset, plus the early return on zero length) -/
+theorem c_update_rep (sd j : Nat) (hsd : sd = 2 ^ j) (h : C.Hasher) (m x : List UInt8) (hr : Proofs.Rep h m) (h0 : h.t0 = 0) :
+    Proofs.Rep (C.update genK sd h x) (m ++ x) ∧ (C.update genK sd h x).key = h.key ∧
+    (C.update genK sd h x).cs.flags = h.cs.flags ∧ (C.update genK sd h x).t0 = 0 := by
+  unfold C.update
+  by_cases hx : x.length = 0
+  · rw [if_pos hx]
+    have : x = [] := List.eq_nil_of_length_eq_zero hx
+    subst this
+    exact ⟨by simpa using hr, rfl, rfl, h0⟩
+  · rw [if_neg hx, Proofs.genK_eq_spec]
+    have := Proofs.updateOk_rep sd j hsd h m x hr (by intro k _; rw [h0]; exact Nat.dvd_zero _)
+    exact ⟨this.1, this.2.1, this.2.2.1, by rw [this.2.2.2]; exact h0⟩
+
+/-- **`blake3_hasher_finalize_seek`** writes exactly `S[seek, seek + out_len)` of the specification's
+output for the bytes absorbed, for every seek and length; `finalize` is the case seek = 0 -/
+theorem c_finalize_seek_eq (h : C.Hasher) (mode : Spec.Mode) (m : List UInt8) (hr : Proofs.Rep h m) (h0 : h.t0 = 0)
+    (hk : h.key = mode.key) (hf : h.cs.flags = mode.flags) (seek n : Nat) :
+    C.finalizeSeek genK h seek n = (Spec.root mode m).stream seek n := by
+  rw [Proofs.genK_eq_spec]
+  unfold C.finalizeSeek
+  by_cases hn : n = 0
+  · subst hn; simp [Proofs.stream_zero]
+  · rw [if_neg hn, Proofs.finalOutput_root h m hr h0, hk, hf]
+    exact Proofs.c_outputRootBytes_eq _ (Proofs.rootNode_blen _ _ _) seek n
+
+/-- the two derive-key initialisers produce the hasher keyed with the specification's context key -/
+theorem c_init_derive_key_eq (sd j : Nat) (hsd : sd = 2 ^ j) (ctx : List UInt8) :
+    C.initDeriveKeyRaw genK sd ctx = C.initBase (Spec.Mode.derive ctx).key Spec.DERIVE_KEY_MATERIAL := by
+  unfold C.initDeriveKeyRaw
+  have hr := c_update_rep sd j hsd (C.initBase Spec.IV Spec.DERIVE_KEY_CONTEXT) [] ctx (Proofs.rep_new _ _) rfl
+  simp only [C.finalize]
+  -- the context hasher is in `hash`-like mode with the DERIVE_KEY_CONTEXT flag: use the node-level statement
+  rw [Proofs.genK_eq_spec] at hr ⊢
+  unfold C.finalizeSeek
+  rw [if_neg (by decide), Proofs.finalOutput_root _ _ hr.1 hr.2.2.2, hr.2.1, hr.2.2.1]
+  rw [Proofs.c_outputRootBytes_eq _ (Proofs.rootNode_blen _ _ _)]
+  have e1 : (C.initBase Spec.IV Spec.DERIVE_KEY_CONTEXT).key = Spec.IV := rfl
+  have e2 : (C.initBase Spec.IV Spec.DERIVE_KEY_CONTEXT).cs.flags = Spec.DERIVE_KEY_CONTEXT := rfl
+  rw [e1, e2, List.nil_append]
+  have hs := Proofs.stream_in_block (Spec.rootNode Spec.IV Spec.DERIVE_KEY_CONTEXT ctx) 0 0 32 (by omega)
+  simp only [Nat.mul_zero, Nat.add_zero, List.drop_zero] at hs
+  rw [hs]
+  rfl
 
 end B3.Props.C06
